@@ -16,7 +16,17 @@ GATING_ASSUMED = ("exact/gating: every callee of QSexact_solver / QSexact_basis_
                   "QSexact_optimal_test / QSexact_infeasible_test / optimal_output / infeasible_output / QScopy_prob_mpq_* are replaced by ghost contracts "
                   "(decided in their own groups); frame checking is not part of this group; solution arrays handed back by stubs have length 0")
 
+EXACT = ["QSV_GMP_EXACT", "QSV_NARROW", "QSV_INF=1024"]
+CHK_BOUND = "fixed dimension 2 rows x 2 structural columns (+2 logicals), integer data |v| <= 2 (bounds also +-infinity), candidate x |v| <= 4, arbitrary sparse layout incl. duplicate entries, both column orders; all loops completely unwound (unwinding assertions on); exact integer arithmetic with overflow asserted absent"
+CHK_ASSUMED = "exact checkers: mpq_QSload_basis is a nondeterministic stub; ILLlp_cache_* are the real functions of lpdata.c; GMP = EXACT pair model (values stay integral in this bound)"
+
 GROUPS = [
+    Group("exact/opttest", "exact_checkers.c", tus=["exact.c", "lpdata_mpq.c", "allocrus.c"], model=MODEL, defines=["FN_opttest"] + EXACT,
+          dfcc=False, unwind=8, kind="bounded", bound=CHK_BOUND, timeout=1500,
+          must_fail=["reach_end", "reach_accept", "reach_reject"], functions=["QSexact_optimal_test"], props=["C01"], assumed=[CHK_ASSUMED]),
+    Group("exact/inftest", "exact_checkers.c", tus=["exact.c", "lpdata_mpq.c", "allocrus.c"], model=MODEL, defines=["FN_inftest"] + EXACT,
+          dfcc=False, unwind=8, kind="bounded", bound=CHK_BOUND, timeout=1500,
+          must_fail=["reach_end", "reach_accept", "reach_reject"], functions=["QSexact_infeasible_test"], props=["C02"], assumed=[CHK_ASSUMED]),
     Group("exact/gating", "exact_gating.c", tus=["exact.c"], model=MODEL, dfcc=False, std_checks=False, slice=True,
           remove_bodies=["QSexact_optimal_test", "QSexact_infeasible_test", "optimal_output", "infeasible_output",
                          "QScopy_prob_mpq_dbl", "QScopy_prob_mpq_mpf"],
